@@ -695,7 +695,14 @@ func New() Beacon {
 func (b *beacon) GetAll() map[string]treasure.Treasure {
 	b.mu.RLock()
 	defer b.mu.RUnlock()
-	return b.treasuresByKeys
+	// return a copy: callers iterate the result after the lock is released,
+	// and iterating the live map while another goroutine adds or deletes a
+	// treasure is a fatal "concurrent map iteration and map write"
+	all := make(map[string]treasure.Treasure, len(b.treasuresByKeys))
+	for key, treasureObj := range b.treasuresByKeys {
+		all[key] = treasureObj
+	}
+	return all
 }
 
 type IterationType int
